@@ -56,7 +56,8 @@ def mag_case(draw):
     b = draw(operand(positive=positive, array=isinstance(a["x"], list) and draw(st.booleans())))
     if isinstance(a["x"], list) and isinstance(b["x"], list) and len(a["x"]) != len(b["x"]):
         b = {"x": b["x"][0], "e": (b["e"][0] if isinstance(b["e"], list) else b["e"])}
-    return {"kind": "mag", "op": op, "a": a, "b": b}
+    # the very same object on both sides (m*m, m+m): the same rules as for two equal operands
+    return {"kind": "mag", "op": op, "a": a, "b": b, "self": draw(st.integers(0, 7)) == 0}
 
 
 @st.composite
@@ -132,8 +133,28 @@ def qprod_case(draw):
     return {"kind": "qprod", "op": op, "u": u, "v": w, "a": a, "b": b}
 
 
+@st.composite
+def logsum_case(draw):
+    u = draw(st.sampled_from(["dB", "dBm", "dBW", "dBV", "B", "dBA", "Np"]))
+    lv = st.floats(-30.0, 60.0)
+    e = st.one_of(st.none(), st.floats(0.01, 3.0))
+    a, b = draw(lv), draw(lv)
+    op = draw(st.sampled_from(["+", "-"]))
+    if op == "-" and not a - b >= 0.5:
+        a, b = max(a, b) + 1.0, min(a, b)
+    return {"kind": "logsum", "u": u, "a": {"x": a, "e": draw(e)}, "b": {"x": b, "e": draw(e)}, "op": op}
+
+
+@st.composite
+def radconv_case(draw):
+    a = draw(operand(allow_exact=False))
+    return {"kind": "radconv", "a": a, "v": draw(st.sampled_from(["mrad", "rad", "mrad"]))}
+
+
 def strategies(tier):
     return {
+        "log_sums": (logsum_case(), 400, 8000),
+        "number_to_rad": (radconv_case(), 200, 4000),
         "magnitude_ops": (mag_case(), 2500, 60000),
         "exact_factor": (exact_case(), 1000, 20000),
         "power": (pow_case(), 600, 10000),
@@ -185,7 +206,12 @@ def _ge(got, bound, value):
 
 def check_mag(case, v):
     a, b, op = case["a"], case["b"], case["op"]
+    if case.get("self"):
+        b = a
     A, B = _mk(a), _mk(b)
+    if case.get("self"):
+        B = A
+        v.label("same_object_both_sides")
     r = {"+": lambda: A + B, "-": lambda: A - B, "*": lambda: A * B, "/": lambda: A / B}[op]()
     err = r.abse()
     xa, xb, ea, eb = _np(a["x"]), _np(b["x"]), _err(a), _err(b)
@@ -439,6 +465,51 @@ def check_qprod(case, v):
     v.label("qprod")
 
 
+def check_logsum(case, v):
+    from scinumtools.units import Quantity
+    a, b, u, op = case["a"], case["b"], case["u"], case["op"]
+    qa = Quantity(a["x"], u, abse=a["e"]) if a["e"] else Quantity(a["x"], u)
+    qb = Quantity(b["x"], u, abse=b["e"]) if b["e"] else Quantity(b["x"], u)
+    txt = f"Quantity({a['x']!r}+-{a['e']!r},{u!r}) {op} Quantity({b['x']!r}+-{b['e']!r},{u!r})"
+    try:
+        r = qa + qb if op == "+" else qa - qb
+    except Exception as ex:
+        return v.fail("error-lost", f"{txt} raised {ex!r}")
+    err = r.abse()
+    if not _nonneg(err):
+        return v.fail("negative-error", f"{txt}: error {err!r}")
+    if a["e"] is None and b["e"] is None:
+        if err is not None:
+            return v.fail("exact-not-exact", f"{txt}: error {err!r}")
+        return v.label("exact_operands")
+    exp = (a["e"] or 0.0) + (b["e"] or 0.0)
+    if err is None or not _eq(err, exp, 1e-9):
+        return v.fail("sum-error", f"{txt}: error {err!r}, expected ea+eb = {exp!r}")
+    v.nt(True)
+    v.label("logsum" + op)
+
+
+def check_radconv(case, v):
+    from scinumtools.units import Quantity
+    a = case["a"]
+    f = 1e3 if case["v"] == "mrad" else 1.0
+    q = Quantity(_mk(a))
+    e0, r0 = _np(q.abse()), _np(q.rele())
+    q.to(case["v"])
+    err = q.abse()
+    txt = f"Quantity({a['x']!r}+-{a['e']!r}).to({case['v']!r})"
+    if err is None:
+        return v.fail("error-lost", f"{txt} lost its error")
+    if not _nonneg(err):
+        return v.fail("negative-error", f"{txt}: error {err!r}")
+    if not _eq(err, e0 * f):
+        return v.fail("conversion-error", f"{txt}: abse {err!r}, expected {e0 * f!r} (value scaled by {f})")
+    if not _eq(q.rele(), r0, 1e-10):
+        return v.fail("conversion-rele", f"{txt}: relative error changed from {r0!r} to {q.rele()!r}")
+    v.nt(f != 1.0)
+    v.label("number_to_" + case["v"])
+
+
 def _k_divisor_reaches_zero(case, kind, detail):
     """quotient of two uncertain positive values whose divisor is uncertain by >= 100 %: the library reports the larger
     deviation of the two interval corners (a+da)/(b-db), (a-da)/(b+db), which can be below the first-order estimate.
@@ -446,7 +517,7 @@ def _k_divisor_reaches_zero(case, kind, detail):
     import re
     if kind != "first-order" or case.get("kind") != "mag" or case.get("op") != "/":
         return False
-    a, b = case["a"], case["b"]
+    a, b = case["a"], (case["a"] if case.get("self") else case["b"])
     if a["e"] is None or b["e"] is None:
         return False
     xa, xb, ea, eb = _np(a["x"]), _np(b["x"]), _err(a), _err(b)
@@ -469,7 +540,7 @@ def check(case):
     try:
         with np.errstate(all="ignore"):
             {"mag": check_mag, "exact": check_exact, "pow": check_pow, "rele": check_rele,
-             "conv": check_conv, "qsum": check_qsum, "qprod": check_qprod, "custom_conv": check_custom_conv}[case["kind"]](case, v)
+             "conv": check_conv, "qsum": check_qsum, "logsum": check_logsum, "radconv": check_radconv, "qprod": check_qprod, "custom_conv": check_custom_conv}[case["kind"]](case, v)
     finally:
         if not R.tables_pristine():
             R.restore_tables()
